@@ -6,7 +6,9 @@ from . import VERIF_ROOT
 
 
 def write(prop, tier, seed, level, coverage, assumptions, wall_s, violations, extra=None):
-    path = os.path.join(VERIF_ROOT, "evidence", "%s.json" % prop)
+    # VERIF_EVIDENCE_DIR: used only by the sensitivity self-tests, so that a run against a mutated scratch copy
+    # never overwrites the evidence of /repo
+    path = os.path.join(os.environ.get("VERIF_EVIDENCE_DIR") or os.path.join(VERIF_ROOT, "evidence"), "%s.json" % prop)
     os.makedirs(os.path.dirname(path), exist_ok=True)
     doc = {
         "property_id": prop,
